@@ -69,6 +69,21 @@ class C12(tk.TableProp):
                 {"a": "get", "view": 2, "idx": [1, 1, 0], "q": ["T"]}]
         out.append({"comps": [{"name": "pop", "cols": cols, "views": views}], "pop": 3, "init": init, "steps": 0, "ops": ops,
                     "seeds": [1, 2]})
+        # the same read twice through every kind of handle, a write through every other kind in between (and a rejected write)
+        ops2 = [{"a": "sub", "id": 20, "parent": 1, "cols": ["a"]}, {"a": "sub", "id": 21, "parent": 6, "cols": ["a", "tracked_since"]}]
+        hs, val = [1, 2, 5, 6, 7, 20, 21], 50
+        for v in hs:
+            for w in hs:
+                if v == w:
+                    continue
+                val += 1
+                idx = [2, 0, 1] if (v + w) % 2 else [1, 2]
+                g1 = {"a": "get", "view": v, "idx": idx, "q": ["T"], "noq": bool(v % 2), "mutate": bool((v + w) % 3 == 0), "move": "first-read"}
+                ops2 += [g1, {"a": "upd", "view": w, "form": "D", "rows": [1], "cols": [["a", "int", [f"i{val}"]]], "move": "overwrite-by-another-handle"}]
+                if (v + w) % 3 == 1:
+                    ops2.append({"a": "upd", "view": w, "form": "D", "rows": [1], "cols": [["a", "flt", ["f1/1"]]], "kind": "dtype", "move": "rejected-in-between"})
+                ops2.append(dict(g1, mutate=False, move="repeat:read"))
+        out.append({"comps": [{"name": "pop", "cols": cols, "views": views}], "pop": 3, "init": init, "steps": 0, "ops": ops2, "seeds": [1, 2]})
         return out
 
     def generate(self, rng, i, tier):
@@ -145,7 +160,11 @@ class C12(tk.TableProp):
         for _ in range(rng.randint(8, 20)):
             r = rng.random()
             vid = rng.choice(list(g.views))
-            if r < 0.56:
+            if r < 0.05:
+                ops += g.read_twice(cols)                         # the same get twice, a write by another handle in between
+            elif r < 0.09:
+                ops += g.three_step(cols)                         # the same update twice, another handle in between
+            elif r < 0.56:
                 if rng.random() < 0.25:
                     vid = max(g.views)                            # the most recent (sub-)view
                 ops.append(self._read(rng, g, vid, cols))
@@ -204,88 +223,8 @@ class C12(tk.TableProp):
 
     # ------------------------------------------------------------------ oracle (the property itself)
     def oracle(self, case, obs):
-        fails = self.seed_failures(case, obs)
-        vdefs = tk.view_defs(case, obs)
-        known_views = dict(tk.view_defs(case, {"log": []}))
-
-        def fail(sig, msg):
-            fails.append({"sig": sig, "msg": msg})
-
-        for i, e, prev, cr in tk.walk(obs):
-            if e["t"] == "sub":
-                parent = known_views.get(e["parent"])
-                if parent is not None and prev is not None:
-                    pc = parent["cols"] or [c[0] for c in prev["cols"]]
-                    good = bool(e["cols"]) and all(c in pc for c in e["cols"])
-                    if good and e["out"] != "ok":
-                        fail("subview-rejected-good", f"log {i}: subview {e['cols']} of view {e['parent']} {pc} refused ({e['out']})")
-                    if not good and e["out"] == "ok":
-                        fail("subview-accepted-bad", f"log {i}: subview {e['cols']} of view {e['parent']} {pc} accepted")
-                    if e["out"] == "ok":
-                        known_views[e["id"]] = {"cols": list(e["cols"]), "q": parent["q"], "parent": e["parent"]}
-                if tk.table_diff(prev, e.get("table")):
-                    fail("read-changed-table", f"log {i} sub: {tk.table_diff(prev, e.get('table'))}")
-            if e["t"] != "get":
-                continue
-            t = prev if prev is not None else {"rows": [], "cols": []}
-            d = tk.table_diff(t, e["table"] if e["table"] is not None else {"rows": [], "cols": []})
-            if d:
-                fail("read-changed-table", f"log {i} get (frame overwritten in place afterwards: {bool(e.get('mutated'))}): {d}")
-            vd = vdefs.get(e["view"])
-            if vd is None:
-                continue
-            tcols = [c[0] for c in t["cols"]]
-            vcols = vd["cols"] or tcols
-            unknown = [r for r in e["idx"] if r not in t["rows"]]
-            missing = [c for c in vcols if c not in tcols]
-            qmissing = [c for c in (tk.pred_cols(vd["q"]) | tk.pred_cols(e["q"])) if c not in tcols]
-            desc = f"log {i} get view {e['view']} cols {vd['cols']} query {tk.pred_query(vd['q'])!r} idx {e['idx']} extra {tk.pred_query(e['q'])!r}"
-            if missing:
-                if e["out"] == "ok":
-                    fail("missing-column-silently-omitted", f"{desc}: columns {missing} do not exist, yet the read returned {e['frame']}")
-                continue
-            if unknown:
-                if e["out"] == "ok":
-                    fail("unknown-label-accepted", f"{desc}: labels {unknown} do not exist, yet the read returned rows {e['frame']['rows']}")
-                continue
-            if qmissing or (need_tracked(vd) and "tracked" not in tcols):
-                continue        # the query cannot be evaluated; the property has no opinion on the outcome class
-            if e["out"] != "ok":
-                fail("good-read-refused", f"{desc}: {e['out']}")
-                continue
-            nt = need_tracked(vd)
-
-            def keep(r):
-                tr = tk.cell(t, r, "tracked") == "b1"
-                return tk.pred_eval(vd["q"], t, r) and tk.pred_eval(e["q"], t, r) and (tr or not nt)
-
-            want = [r for r in e["idx"] if keep(r)] if e["idx"] else []
-            got = e["frame"]
-            if got["rows"] != want:
-                sig = "get-wrong-rows"
-                extra_rows = [r for r in got["rows"] if r not in want]
-                if nt and extra_rows and all(tk.cell(t, r, "tracked") != "b1" for r in extra_rows):
-                    sig = "untracked-returned"
-                elif sorted(got["rows"]) == sorted(want):
-                    sig = "get-wrong-order"
-                fail(sig, f"{desc}: returned rows {got['rows']}, expected {want} (tracked: "
-                          f"{[r for r in t['rows'] if tk.cell(t, r, 'tracked') == 'b1']})")
-                continue
-            gcols = [c[0] for c in got["cols"]]
-            if (gcols != vcols) if vd["cols"] else (sorted(gcols) != sorted(vcols)):
-                fail("get-wrong-columns" if vd["cols"] else "whole-table-view-columns",
-                     f"{desc}: returned columns {gcols}, " + (f"the view has {vcols}" if vd["cols"] else f"the table currently has {vcols}"))
-                continue
-            for name, dt, vals in got["cols"]:
-                tc = tk.col_of(t, name)
-                if dt != tc[1]:
-                    fail("get-wrong-dtype", f"{desc}: column {name} is {dt}, the table has {tc[1]}")
-                for r, v in zip(got["rows"], vals):
-                    if tk.norm_tok(v) != tk.norm_tok(tk.cell(t, r, name)):
-                        fail("get-wrong-values", f"{desc}: cell ({r},{name}) is {v}, the table has {tk.cell(t, r, name)}")
-                        break
-        fails += tk.held_failures(obs) + tk.population_failures(obs) + tk.history_failures(case, obs)
-        return fails
+        return (self.seed_failures(case, obs) + tk.read_failures(case, obs) + tk.held_failures(obs) + tk.population_failures(obs)
+                + tk.history_failures(case, obs))
 
     # ------------------------------------------------------------------ reporting
     def nontrivial(self, case, obs):
@@ -295,7 +234,7 @@ class C12(tk.TableProp):
         return False
 
     def tags(self, case, obs):
-        t = [f"rows0:{min(case['pop'], 9)}"]
+        t = [f"rows0:{min(case['pop'], 9)}"] + ["move:" + a["move"] for a in case.get("ops", []) if a.get("move")]
         vd = tk.view_defs(case, obs)
         for i, e, prev, cr in tk.walk(obs):
             if e["t"] == "get":
